@@ -308,8 +308,67 @@ static int do_xfree() {
     return 0;
 }
 
+// api: every C entry point against a shadow map.  ops (op a b)*:  1 size 0 = malloc | 2 slot 0 = free | 3 size align = aligned_malloc | 4 slot newsize = realloc |
+// 5 n size = calloc | 6 slot newsize (align in the next triple's place: op 6 uses b = log2 align) = aligned_realloc | 7 log2align size = posix_memalign | 8 slot 0 = msize
+// predicate per op: the new block overlaps no live block, is aligned (requested alignment; else 16, or 8 for sizes <= 8), msize >= size, calloc memory is zero,
+// realloc keeps the first min(old,new) bytes, every live block keeps its pattern, freed memory is not handed out before the free.
+static int do_api() {
+    std::vector<i128> c; Out o; Watchdog wd(20.0);
+    while (read_case(c)) {
+        wd.arm(&o);
+        struct Blk { unsigned char* p; size_t n; unsigned char pat; size_t al; };
+        std::vector<Blk> slots; long overlap = 0, misal = 0, msz = 0, nonzero = 0, lost = 0, corrupt = 0, badret = 0;
+        auto live_check = [&](unsigned char* p, size_t n, size_t skip) {
+            for (size_t k = 0; k < slots.size(); ++k) if (k != skip && slots[k].p) { if (p < slots[k].p + (slots[k].n ? slots[k].n : 1) && slots[k].p < p + (n ? n : 1)) overlap++; } };
+        auto fill = [&](Blk& b) { memset(b.p, b.pat, b.n); };
+        auto intact = [&](const Blk& b, size_t upto) { for (size_t j = 0; j < upto; ++j) if (b.p[j] != b.pat) return false; return true; };
+        auto admit = [&](void* q, size_t n, size_t al, bool zero) {
+            Blk b{(unsigned char*)q, n, (unsigned char)(0x21 + slots.size() % 90), al};
+            if (!q) { slots.push_back({nullptr, 0, 0, 0}); return; }
+            size_t need = al ? al : (n <= 8 ? 8 : 16);
+            if (((uintptr_t)q % need) != 0) misal++;
+            if (scalable_msize(q) < n) msz++;
+            live_check(b.p, n, (size_t)-1);
+            if (zero) for (size_t j = 0; j < n; ++j) if (b.p[j] != 0) { nonzero++; break; }
+            fill(b); slots.push_back(b);
+        };
+        for (size_t i = 0; i + 2 < c.size(); i += 3) {
+            int op = (int)c[i]; size_t a = (size_t)c[i + 1], b = (size_t)c[i + 2];
+            if (op == 1) admit(scalable_malloc(a), a, 0, false);
+            else if (op == 3) admit(scalable_aligned_malloc(a, b), a, b, false);
+            else if (op == 5) admit(scalable_calloc(a, b), a * b, 0, true);
+            else if (op == 7) { void* q = nullptr; int rc = scalable_posix_memalign(&q, (size_t)1 << a, b); if (rc) { q = nullptr; if ((((size_t)1 << a) % sizeof(void*)) == 0) badret++; } admit(q, b, (size_t)1 << a, false); }
+            else if (op == 2) { if (a < slots.size() && slots[a].p) { if (!intact(slots[a], slots[a].n)) corrupt++; scalable_free(slots[a].p); slots[a].p = nullptr; } }
+            else if (op == 8) { if (a < slots.size() && slots[a].p && scalable_msize(slots[a].p) < slots[a].n) msz++; }
+            else if (op == 4 || op == 6) {
+                if (a < slots.size() && slots[a].p) {
+                    Blk old = slots[a]; size_t al = op == 6 ? ((size_t)1 << (b >> 32)) : 0; size_t nn = op == 6 ? (b & 0xffffffffu) : b;
+                    if (!nn) continue;
+                    void* q = op == 6 ? scalable_aligned_realloc(old.p, nn, al) : scalable_realloc(old.p, nn);
+                    if (!q) continue;                                   // the old block stays valid
+                    slots[a].p = nullptr;
+                    Blk nb{(unsigned char*)q, nn, old.pat, al};
+                    size_t keep = old.n < nn ? old.n : nn;
+                    if (!intact(nb, keep)) lost++;
+                    if (al && ((uintptr_t)q % al) != 0) misal++;
+                    if (!al && ((uintptr_t)q % (nn <= 8 ? 8 : 16)) != 0 && old.al == 0) misal++;
+                    if (scalable_msize(q) < nn) msz++;
+                    live_check(nb.p, nn, a);
+                    fill(nb); slots[a] = nb;
+                }
+            }
+        }
+        for (auto& bl : slots) if (bl.p) { if (!intact(bl, bl.n)) corrupt++; scalable_free(bl.p); }
+        o.word("OVERLAP"); o.put(overlap); o.word("MISALIGNED"); o.put(misal); o.word("MSIZE"); o.put(msz); o.word("NONZERO"); o.put(nonzero);
+        o.word("LOSTDATA"); o.put(lost); o.word("CORRUPT"); o.put(corrupt); o.word("BADRET"); o.put(badret);
+        wd.disarm(); o.flush();
+    }
+    return 0;
+}
+
 int main(int argc, char** argv) {
     std::string m = argc > 1 ? argv[1] : "";
+    if (m == "api") return do_api();
     if (m == "xfree") return do_xfree();
     if (m == "pool") return do_pool();
     if (m == "mt") return do_mt(atoi(argv[2]), (unsigned)atoi(argv[3]), atoi(argv[4]));
